@@ -418,3 +418,367 @@ Proof.
   cbn [pre_ok_seq] in H. apply andb_true_iff in H. destruct H as [H1 H2].
   destruct (pre_ok_spre _ _ H1) as [G1 G2]. cbn [spre_seq]. auto.
 Qed.
+
+(* ------------------------------------------------------------------ *)
+(** * [slot_val] as a fold over the slot's own records *)
+
+Definition is_newpage (p : N) (r : lrec) : bool :=
+  match l_kind r with KNewPage _ p' => p' =? p | _ => false end.
+
+Lemma sv_step_cases p s v r :
+  sv_step p s v r = if is_newpage p r then None else if on_slot p s r then slot_step v (l_kind r) else v.
+Proof.
+  unfold sv_step, is_newpage, on_slot. destruct (l_kind r) as [ | | | | | | | |pv p'| |]; cbn [slot_of]; reflexivity.
+Qed.
+
+Lemma newpage_not_slot p s r : is_newpage p r = true -> on_slot p s r = false.
+Proof. unfold is_newpage, on_slot. destruct (l_kind r); cbn; intros H; try discriminate; reflexivity. Qed.
+
+Lemma on_slot_has_lsn p s r : on_slot p s r = true -> has_lsn (l_kind r) = true.
+Proof. unfold on_slot. destruct (l_kind r); cbn; intros H; try discriminate; reflexivity. Qed.
+
+Lemma on_slot_slot p s r : on_slot p s r = true -> slot_of (l_kind r) = Some (p, s).
+Proof.
+  unfold on_slot. destruct (slot_of (l_kind r)) as [[p' s']|]; [|discriminate].
+  intros H. apply andb_true_iff in H. destruct H as [H1 H2].
+  apply N.eqb_eq in H1. apply N.eqb_eq in H2. subst. reflexivity.
+Qed.
+
+Lemma strict_newpage_eq p r :
+  (match l_kind r with KNewPage _ p' => negb (p' =? p) | _ => true end) = negb (is_newpage p r).
+Proof. unfold is_newpage. destruct (l_kind r); reflexivity. Qed.
+
+(** once a record has worked on the slot, its page is not created again *)
+Fixpoint ord (p s : N) (m : list lrec) : bool :=
+  match m with
+  | [] => true
+  | r :: rest => (if on_slot p s r then forallb (fun r' => negb (is_newpage p r')) rest else true) && ord p s rest
+  end.
+
+Lemma ord_app p s : forall m1 m2, ord p s (m1 ++ m2) = true -> ord p s m1 = true /\ ord p s m2 = true.
+Proof.
+  induction m1 as [|r m1 IH]; intros m2 H; [split; [reflexivity | exact H]|].
+  cbn [app ord] in *. apply andb_true_iff in H. destruct H as [H1 H2].
+  destruct (IH _ H2) as [G1 G2]. split; [|exact G2]. rewrite G1, andb_true_r.
+  destruct (on_slot p s r); [|reflexivity].
+  rewrite forallb_app in H1. apply andb_true_iff in H1. tauto.
+Qed.
+
+Lemma ord_filter p s f : forall m, ord p s m = true -> ord p s (filter f m) = true.
+Proof.
+  induction m as [|r m IH]; intros H; [reflexivity|].
+  cbn [ord] in H. apply andb_true_iff in H. destruct H as [H1 H2]. cbn [filter].
+  destruct (f r); [|apply IH; exact H2]. cbn [ord]. rewrite (IH H2), andb_true_r.
+  destruct (on_slot p s r); [|reflexivity].
+  rewrite forallb_forall in *. intros x Hx. apply filter_In in Hx. apply H1. tauto.
+Qed.
+
+Lemma fresh_ord p s : forall l seen, fresh_pages_ok l seen = true ->
+  ord p s l = true /\ (memN p seen = true -> forall r, In r l -> is_newpage p r = false).
+Proof.
+  induction l as [|r l IH]; intros seen H; [split; [reflexivity | intros _ r []]|].
+  cbn [fresh_pages_ok] in H. cbn [ord].
+  assert (K : forall seen', fresh_pages_ok l seen' = true -> is_newpage p r = false ->
+              (on_slot p s r = true -> memN p seen' = true) ->
+              (memN p seen = true -> memN p seen' = true) ->
+              ((if on_slot p s r then forallb (fun r' => negb (is_newpage p r')) l else true) && ord p s l = true) /\
+              (memN p seen = true -> forall x, In x (r :: l) -> is_newpage p x = false)).
+  { intros seen' Hf Hn Hs Hm. destruct (IH _ Hf) as [G1 G2]. split.
+    - rewrite G1, andb_true_r. destruct (on_slot p s r) eqn:Es; [|reflexivity].
+      apply forallb_forall. intros x Hx. rewrite (G2 (Hs eq_refl) x Hx). reflexivity.
+    - intros Hin x [<-|Hx]; [exact Hn | apply G2; [apply Hm; exact Hin | exact Hx]]. }
+  assert (S : forall p' s', slot_of (l_kind r) = Some (p', s') -> memN p' seen = true ->
+              on_slot p s r = true -> memN p seen = true).
+  { intros p' s' Hs Hm Ho. apply on_slot_slot in Ho. rewrite Hs in Ho. inversion Ho; subst. exact Hm. }
+  unfold is_newpage in K.
+  destruct (l_kind r) as [p' s' b|p' s'|p' s' b|p' s'|p' s' old new| | | |pv p'| |] eqn:Ek; cbn [page_of] in H;
+    try (apply andb_true_iff in H; destruct H as [H1 H2]; apply (K seen H2 eq_refl); [eapply S; [reflexivity | exact H1] | tauto]);
+    try (apply (K seen H eq_refl); [unfold on_slot; rewrite Ek; cbn; discriminate | tauto]).
+  apply andb_true_iff in H. destruct H as [H1 H2]. apply negb_true_iff in H1.
+  destruct (N.eqb_spec p' p) as [E|E].
+  - subst p'. destruct (IH _ H2) as [G1 G2]. split.
+    + rewrite G1. unfold on_slot. rewrite Ek. reflexivity.
+    + intros Hm. rewrite Hm in H1. discriminate.
+  - apply (K (p' :: seen) H2 eq_refl).
+    + unfold on_slot. rewrite Ek. cbn. discriminate.
+    + intros Hm. cbn [memN]. rewrite Hm. apply orb_true_r.
+Qed.
+
+Lemma sv_fold_ord p s : forall m v, ord p s m = true ->
+  (v = None \/ forall r, In r m -> is_newpage p r = false) ->
+  fold_left (sv_step p s) m v = fold_left slot_step (map l_kind (filter (on_slot p s) m)) v.
+Proof.
+  induction m as [|r m IH]; intros v Ho Hv; [reflexivity|].
+  cbn [ord] in Ho. apply andb_true_iff in Ho. destruct Ho as [Ho1 Ho2].
+  cbn [fold_left filter]. rewrite sv_step_cases.
+  destruct (is_newpage p r) eqn:En.
+  - rewrite (newpage_not_slot p s r En).
+    destruct Hv as [->|Hv]; [apply IH; [exact Ho2 | left; reflexivity]|].
+    rewrite (Hv r (or_introl eq_refl)) in En. discriminate.
+  - destruct (on_slot p s r) eqn:Es.
+    + cbn [map fold_left]. apply IH; [exact Ho2|]. right.
+      rewrite forallb_forall in Ho1. intros r' Hr'. specialize (Ho1 r' Hr').
+      destruct (is_newpage p r'); [discriminate | reflexivity].
+    + apply IH; [exact Ho2|]. destruct Hv as [Hv|Hv]; [left; exact Hv|].
+      right. intros x Hx. apply Hv. right. exact Hx.
+Qed.
+
+Lemma sv_fold_nonew p s : forall m v, (forall r, In r m -> is_newpage p r = false) ->
+  fold_left (sv_step p s) m v = fold_left slot_step (map l_kind (filter (on_slot p s) m)) v.
+Proof.
+  induction m as [|r m IH]; intros v Hn; [reflexivity|].
+  cbn [fold_left filter]. rewrite sv_step_cases, (Hn r (or_introl eq_refl)).
+  assert (Hn' : forall x, In x m -> is_newpage p x = false) by (intros x Hx; apply Hn; right; exact Hx).
+  destruct (on_slot p s r); [cbn [map fold_left]|]; apply IH; exact Hn'.
+Qed.
+
+(** dropping records that are not on the slot does not change the slot's value *)
+Lemma slot_val_filter p s f m : ord p s m = true ->
+  (forall r, In r m -> on_slot p s r = true -> f r = true) ->
+  slot_val (filter f m) p s = slot_val m p s.
+Proof.
+  intros Ho Hf. rewrite !slot_val_eq.
+  rewrite sv_fold_ord by (try (left; reflexivity); apply ord_filter; exact Ho).
+  rewrite sv_fold_ord by (try (left; reflexivity); exact Ho).
+  rewrite filter_filter_keep by exact Hf. reflexivity.
+Qed.
+
+Lemma sv_fold_untouched p s : forall m v,
+  (forall r, In r m -> is_newpage p r = false) -> (forall r, In r m -> on_slot p s r = false) ->
+  fold_left (sv_step p s) m v = v.
+Proof.
+  intros m v Hn Ho. apply fold_left_id. intros a r Hr.
+  rewrite sv_step_cases, (Hn r Hr), (Ho r Hr). reflexivity.
+Qed.
+
+(* ------------------------------------------------------------------ *)
+(** * Strictness and the unfinished transaction that owns a slot *)
+
+Definition nonloser (l : list lrec) (r : lrec) : bool := negb (memN (l_txn r) (losers l)).
+
+Lemma committed_val_eq l p s : committed_val l p s = slot_val (filter (nonloser l) l) p s.
+Proof. reflexivity. Qed.
+
+Lemma strict_split ls p s : forall pre r post, strict_ok_from ls (pre ++ r :: post) = true ->
+  memN (l_txn r) ls = true -> on_slot p s r = true ->
+  (forall r', In r' post -> on_slot p s r' = true -> l_txn r' = l_txn r) /\
+  (forall r', In r' post -> is_newpage p r' = false).
+Proof.
+  induction pre as [|x pre IH]; intros r post H Hm Hs.
+  - cbn [app strict_ok_from] in H. rewrite Hm, (on_slot_slot _ _ _ Hs) in H.
+    apply andb_true_iff in H. destruct H as [H _]. apply andb_true_iff in H. destruct H as [H1 H2].
+    rewrite forallb_forall in H1, H2. split.
+    + intros r' Hr' Ho. specialize (H1 r' Hr'). rewrite Ho in H1. cbn in H1. apply N.eqb_eq. exact H1.
+    + intros r' Hr'. specialize (H2 r' Hr'). rewrite strict_newpage_eq in H2.
+      apply negb_true_iff in H2. exact H2.
+  - cbn [app strict_ok_from] in H. apply andb_true_iff in H. destruct H as [_ H]. apply IH; assumption.
+Qed.
+
+Lemma no_loser_apply_spec l r : no_loser_apply l = true -> In r l ->
+  memN (l_txn r) (losers l) = true -> is_apply r = false.
+Proof.
+  intros H Hr Hm. unfold no_loser_apply in H. rewrite forallb_forall in H. specialize (H r Hr).
+  rewrite Hm in H. unfold is_apply. destruct (l_kind r); try reflexivity. discriminate.
+Qed.
+
+Fixpoint lpre_from (ls : list N) (p s : N) (l : list lrec) (v : aentry) : Prop :=
+  match l with
+  | [] => True
+  | r :: rest => (on_slot p s r = true -> memN (l_txn r) ls = true -> lpre v (l_kind r)) /\
+                 lpre_from ls p s rest (sv_step p s v r)
+  end.
+
+Lemma lpre_from_app ls p s : forall l1 l2 v,
+  lpre_from ls p s (l1 ++ l2) v <-> lpre_from ls p s l1 v /\ lpre_from ls p s l2 (fold_left (sv_step p s) l1 v).
+Proof.
+  induction l1 as [|r l1 IH]; intros l2 v; cbn [app lpre_from fold_left]; [tauto|].
+  rewrite IH. tauto.
+Qed.
+
+Lemma lpre_replay ls p s : forall l ps last, log_ok_from l ps last = true ->
+  rollbacks_marked_from ls l ps = true ->
+  (forall r, In r l -> memN (l_txn r) ls = true -> is_apply r = false) ->
+  lpre_from ls p s l (page_val ps p s).
+Proof.
+  induction l as [|r l IH]; intros ps last Hl Hm Ha; [exact I|].
+  apply log_ok_from_cons in Hl. destruct Hl as (_ & H2 & H3).
+  cbn [rollbacks_marked_from] in Hm. apply andb_true_iff in Hm. destruct Hm as [Hm1 Hm2].
+  destruct (rec_step_slot ps r p s H2) as [_ G2].
+  cbn [lpre_from]. split.
+  - intros Ho Hls. specialize (Ha r (or_introl eq_refl) Hls). unfold is_apply in Ha.
+    apply on_slot_slot in Ho.
+    destruct (l_kind r) as [p' s' b|p' s'|p' s' b|p' s'|p' s' old new| | | |pv p'| |]; cbn [lpre]; try exact I; try discriminate.
+    cbn [slot_of] in Ho. inversion Ho; subst p' s'. rewrite Hls in Hm1. cbn [negb orb] in Hm1.
+    unfold page_val. destruct (a_at (pslots (get_page ps p)) s) as [[[b [|]]|]|]; try discriminate.
+    exists b. reflexivity.
+  - rewrite <- G2. apply (IH _ _ H3 Hm2). intros x Hx. apply Ha. right. exact Hx.
+Qed.
+
+(** a run of records in which only one transaction works on the slot and the page is not re-created *)
+Lemma spre_seq_of ls p s : forall m v,
+  (forall r, In r m -> is_newpage p r = false) ->
+  (forall r, In r m -> on_slot p s r = true -> memN (l_txn r) ls = true) ->
+  spre_from p s m v -> lpre_from ls p s m v ->
+  spre_seq v (map l_kind (filter (on_slot p s) m)).
+Proof.
+  induction m as [|r m IH]; intros v Hn Hl Hs Hp; [exact I|].
+  cbn [spre_from lpre_from] in Hs, Hp. destruct Hs as [Hs1 Hs2]. destruct Hp as [Hp1 Hp2].
+  rewrite sv_step_cases, (Hn r (or_introl eq_refl)) in Hs2, Hp2.
+  assert (Hn' : forall x, In x m -> is_newpage p x = false) by (intros x Hx; apply Hn; right; exact Hx).
+  assert (Hl' : forall x, In x m -> on_slot p s x = true -> memN (l_txn x) ls = true)
+    by (intros x Hx; apply Hl; right; exact Hx).
+  cbn [filter]. destruct (on_slot p s r) eqn:Eo.
+  - cbn [map spre_seq]. split; [apply Hs1; reflexivity|]. split.
+    + apply Hp1; [reflexivity|]. apply Hl; [left; reflexivity | exact Eo].
+    + apply IH; assumption.
+  - apply IH; assumption.
+Qed.
+
+(* ------------------------------------------------------------------ *)
+(** * Recovery restores the committed state *)
+
+Record undo_hyps (l : list lrec) : Prop := {
+  uh_log : log_ok l = true;
+  uh_chains : chains_ok l = true;
+  uh_strict : strict_ok l = true;
+  uh_fresh : fresh_pages_ok l [] = true;
+  uh_noapply : no_loser_apply l = true;
+  uh_others : others_ok l = true;
+  uh_marked : loser_rollbacks_marked l = true
+}.
+
+Lemma undo_seq_noapply l order : no_loser_apply l = true ->
+  (forall t, In t order -> In t (losers l)) ->
+  forall r, In r (undo_seq l order) -> is_apply r = false.
+Proof.
+  intros Hna Hin r Hr. unfold undo_seq in Hr. apply in_flat_map in Hr. destruct Hr as (t & Ht & Hr).
+  apply in_rev in Hr. unfold txn_recs in Hr. apply filter_In in Hr. destruct Hr as [Hr Hf].
+  apply andb_true_iff in Hf. destruct Hf as [_ Et]. apply N.eqb_eq in Et.
+  apply (no_loser_apply_spec l r Hna Hr). rewrite Et. apply memN_In. apply Hin. exact Ht.
+Qed.
+
+Lemma filter_undo_seq_none l p s : forall order,
+  (forall t r, In t order -> In r l -> l_txn r = t -> on_slot p s r = false) ->
+  filter (on_slot p s) (undo_seq l order) = [].
+Proof.
+  intros order H. apply filter_nil. intros r Hr.
+  unfold undo_seq in Hr. apply in_flat_map in Hr. destruct Hr as (t & Ht & Hr).
+  apply in_rev in Hr. unfold txn_recs in Hr. apply filter_In in Hr. destruct Hr as [Hr Hf].
+  apply andb_true_iff in Hf. destruct Hf as [_ Et]. apply N.eqb_eq in Et.
+  apply (H t r Ht Hr Et).
+Qed.
+
+Lemma undo_seq_app l o1 o2 : undo_seq l (o1 ++ o2) = undo_seq l o1 ++ undo_seq l o2.
+Proof. unfold undo_seq. apply flat_map_app. Qed.
+
+(** The unfinished transaction that has worked on a slot: its records on the slot are the
+    last ones on the slot, they are what the undo pass undoes there, and before them the
+    slot held the committed value. *)
+Lemma slot_owner l order p s : undo_hyps l -> Permutation order (losers l) ->
+  existsb (fun r => on_slot p s r && memN (l_txn r) (losers l)) l = true ->
+  exists B v0,
+    filter (on_slot p s) (undo_seq l order) = rev B /    slot_val l p s = fold_left slot_step (map l_kind B) v0 /    spre_seq v0 (map l_kind B) /    v0 = committed_val l p s.
+Proof.
+  intros [Hl Hc Hst Hf Hna Ho Hmk] Hperm Eex.
+  assert (Hin : forall t, In t order -> In t (losers l))
+    by (intros t Ht; eapply Permutation_in; eassumption).
+  assert (Hnd : NoDup order)
+    by (eapply Permutation_NoDup; [apply Permutation_sym; exact Hperm | apply losers_NoDup]).
+  destruct (fresh_ord p s l [] Hf) as [Hord _].
+  destruct (replay_slot l [] None p s Hl) as [_ Hspre]. rewrite page_val_nil in Hspre.
+  assert (Hlpre : lpre_from (losers l) p s l None).
+  { rewrite <- (page_val_nil p s). apply (lpre_replay (losers l) p s l [] None Hl Hmk).
+    intros r Hr Hm. apply (no_loser_apply_spec l r Hna Hr Hm). }
+  apply first_split in Eex. destruct Eex as (pre & r1 & post & El & Hr1 & Hpre).
+  apply andb_true_iff in Hr1. destruct Hr1 as [Hs1 Hm1].
+  set (t := l_txn r1).
+  assert (Hst' := Hst). unfold strict_ok in Hst'. rewrite El in Hst' at 2.
+  destruct (strict_split _ p s _ _ _ Hst' Hm1 Hs1) as [Hpost1 Hpost2].
+  exists (filter (on_slot p s) (r1 :: post)), (slot_val pre p s).
+  assert (Hnn : forall r, In r (r1 :: post) -> is_newpage p r = false).
+  { intros r [<-|Hr]; [|apply Hpost2; exact Hr].
+    destruct (is_newpage p r1) eqn:E; [|reflexivity].
+    rewrite (newpage_not_slot p s r1 E) in Hs1. discriminate. }
+  split; [|split; [|split]].
+  - (* the records on the slot among the undone ones *)
+    assert (Ht : In t order).
+    { eapply Permutation_in; [apply Permutation_sym; exact Hperm|]. apply memN_In. exact Hm1. }
+    apply in_split in Ht. destruct Ht as (o1 & o2 & Eo). rewrite Eo in Hnd.
+    assert (Hnot : forall t', In t' (o1 ++ o2) -> t' <> t).
+    { intros t' Ht' E. subst t'. apply NoDup_remove_2 in Hnd. contradiction. }
+    assert (Hother : forall t' r, In t' (o1 ++ o2) -> In r l -> l_txn r = t' -> on_slot p s r = false).
+    { intros t' r Ht' Hr Et. destruct (on_slot p s r) eqn:Es; [exfalso | reflexivity].
+      assert (Hlos : memN (l_txn r) (losers l) = true).
+      { apply memN_In. rewrite Et. apply Hin. rewrite Eo.
+        apply in_app_or in Ht'. apply in_or_app. destruct Ht' as [Ht'|Ht']; [left | right; right]; exact Ht'. }
+      rewrite El in Hr. apply in_app_or in Hr. destruct Hr as [Hr|[Hr|Hr]].
+      - specialize (Hpre r Hr). rewrite Es, Hlos in Hpre. discriminate.
+      - subst r. apply (Hnot t' Ht'). symmetry. exact Et.
+      - apply (Hnot t' Ht'). rewrite <- Et. apply Hpost1; assumption. }
+    rewrite Eo. replace (o1 ++ t :: o2) with (o1 ++ [t] ++ o2) by reflexivity.
+    rewrite !undo_seq_app, !filter_app.
+    rewrite (filter_undo_seq_none l p s o1)
+      by (intros t' r Ht'; apply Hother; apply in_or_app; left; exact Ht').
+    rewrite (filter_undo_seq_none l p s o2)
+      by (intros t' r Ht'; apply Hother; apply in_or_app; right; exact Ht').
+    rewrite app_nil_r. cbn [app]. unfold undo_seq. cbn [flat_map]. rewrite app_nil_r.
+    rewrite filter_rev. f_equal. unfold txn_recs. rewrite El, !filter_app.
+    rewrite (filter_nil _ (filter _ pre)).
+    + cbn [app]. rewrite filter_filter_keep; [reflexivity|].
+      intros x Hx Hox. rewrite (on_slot_has_lsn _ _ _ Hox). cbn [andb]. apply N.eqb_eq.
+      destruct Hx as [<-|Hx]; [reflexivity | apply Hpost1; assumption].
+    + intros x Hx. apply filter_In in Hx. destruct Hx as [Hx Hfx].
+      apply andb_true_iff in Hfx. destruct Hfx as [_ Et]. apply N.eqb_eq in Et.
+      specialize (Hpre x Hx). destruct (on_slot p s x); [|reflexivity].
+      cbn [andb] in Hpre. rewrite Et in Hpre. fold t in Hm1. rewrite Hm1 in Hpre. discriminate.
+  - rewrite slot_val_eq, El, fold_left_app. apply sv_fold_nonew. exact Hnn.
+  - assert (Hlpre' : lpre_from (losers l) p s (pre ++ r1 :: post) None) by (rewrite <- El; exact Hlpre).
+    clear Hlpre. rename Hlpre' into Hlpre.
+    rewrite El in Hspre. apply spre_from_app in Hspre. apply lpre_from_app in Hlpre.
+    destruct Hspre as [_ Hspre]. destruct Hlpre as [_ Hlpre].
+    rewrite <- slot_val_eq in Hspre, Hlpre.
+    apply (spre_seq_of (losers l) p s); try assumption.
+    intros r Hr Hsr. destruct Hr as [<-|Hr]; [exact Hm1|].
+    rewrite (Hpost1 r Hr Hsr). exact Hm1.
+  - (* the committed value is the value before the owner's first record *)
+    rewrite committed_val_eq. set (f := nonloser l).
+    rewrite El, filter_app, slot_val_eq, fold_left_app, <- slot_val_eq.
+    rewrite sv_fold_untouched.
+    + rewrite El in Hord. apply ord_app in Hord. destruct Hord as [Hord1 _].
+      symmetry. apply slot_val_filter; [exact Hord1|].
+      intros r Hr Hsr. specialize (Hpre r Hr). rewrite Hsr in Hpre. cbn [andb] in Hpre.
+      unfold f, nonloser. rewrite Hpre. reflexivity.
+    + intros r Hr. apply filter_In in Hr. apply Hnn. tauto.
+    + intros r Hr. apply filter_In in Hr. destruct Hr as [Hr Hnl]. unfold f, nonloser in Hnl.
+      destruct (on_slot p s r) eqn:Es; [exfalso | reflexivity].
+      assert (l_txn r = t) by (destruct Hr as [<-|Hr]; [reflexivity | apply Hpost1; assumption]).
+      rewrite H in Hnl. fold t in Hm1. rewrite Hm1 in Hnl. discriminate.
+Qed.
+
+(** The value of a slot after the undo of the unfinished transactions, given that the
+    undo operations succeed: the committed value. *)
+Lemma undo_slot_committed l order ps p s : undo_hyps l -> Permutation order (losers l) ->
+  page_val ps p s = slot_val l p s ->
+  forallb out_ok (undo_list_outs (undo_seq l order) ps) = true ->
+  page_val (fold_left undo_rec (undo_seq l order) ps) p s = committed_val l p s.
+Proof.
+  intros Hyp Hperm Hps Hok.
+  assert (Hin : forall t, In t order -> In t (losers l))
+    by (intros t Ht; eapply Permutation_in; eassumption).
+  rewrite (undo_list_slot p s _ ps (undo_seq_noapply l order (uh_noapply l Hyp) Hin) Hok), Hps.
+  destruct (existsb (fun r => on_slot p s r && memN (l_txn r) (losers l)) l) eqn:Eex.
+  - destruct (slot_owner l order p s Hyp Hperm Eex) as (B & v0 & E1 & E2 & E3 & E4).
+    rewrite E1, E2, <- map_map, map_rev, slot_cancel by exact E3. exact E4.
+  - (* no unfinished transaction has touched the slot *)
+    destruct (fresh_ord p s l [] (uh_fresh l Hyp)) as [Hord _].
+    assert (Hnone : forall r, In r l -> on_slot p s r = true -> memN (l_txn r) (losers l) = false).
+    { intros r Hr Hs. destruct (memN (l_txn r) (losers l)) eqn:E; [|reflexivity].
+      assert (X : existsb (fun r => on_slot p s r && memN (l_txn r) (losers l)) l = true)
+        by (apply existsb_exists; exists r; split; [exact Hr | rewrite Hs, E; reflexivity]).
+      rewrite X in Eex. discriminate. }
+    rewrite filter_undo_seq_none.
+    + cbn [map fold_left]. rewrite committed_val_eq. symmetry. apply slot_val_filter; [exact Hord|].
+      intros r Hr Hs. unfold nonloser. rewrite (Hnone r Hr Hs). reflexivity.
+    + intros t r Ht Hr Et. destruct (on_slot p s r) eqn:Es; [|reflexivity].
+      specialize (Hnone r Hr Es). apply memN_false in Hnone. exfalso. apply Hnone. rewrite Et. apply Hin. exact Ht.
+Qed.
